@@ -514,27 +514,20 @@ func c08ParseString(r *Run, s string) {
 // ---------------------------------------------------------------------------
 // locators
 
-// 5'UTR and 3'UTR are INSDC feature keys that start with a number (known finding K8A)
-var c08Keys = []string{"gene", "CDS", "exon", "misc_feature", "source", "5'UTR", "3'UTR"}
+// 5'UTR and 3'UTR are INSDC feature keys that start with a number; together with 3..5xyz
+// and 12abc they begin with a location prefix (repaired finding F9: such a string is a
+// selector, not the point / range it starts with)
+var c08PrefixKeys = []string{"5'UTR", "3'UTR", "3..5xyz", "12abc"}
+var c08Keys = []string{"gene", "CDS", "exon", "misc_feature", "source", "5'UTR", "3'UTR", "3..5xyz", "12abc"}
 
-// isK8A: the shape of known finding K8A — the specifier is not a modifier and
-// tryLocation accepts a proper prefix of it (here: selectors that start with a number).
-func isK8A(spec string) bool {
-	if _, err := gts.AsModifier(spec); err == nil {
-		return false
-	}
-	l, ok := gts.VerifTryLocation(spec)
-	return ok && l.String() != spec
-}
-
-// withUTRKeys renames some features to 5'UTR / 3'UTR so that selectors on those keys have
+// withUTRKeys renames some features to the keys that begin with a location prefix so that selectors on those keys have
 // something to select.
 func withUTRKeys(r *rng, seq gts.Sequence) gts.Sequence {
 	ff := make(gts.FeatureSlice, len(seq.Features()))
 	copy(ff, seq.Features())
 	for i := range ff {
 		if r.intn(3) == 0 {
-			ff[i].Key = []string{"5'UTR", "3'UTR"}[r.intn(2)]
+			ff[i].Key = r.pick(c08PrefixKeys)
 		}
 	}
 	return gts.New(nil, ff, append([]byte(nil), seq.Bytes()...))
@@ -707,6 +700,13 @@ func c08Locator(r *Run, spec c08Spec, m gts.Modifier, seq gts.Sequence) {
 	line := "locator.apply " + encStr(s) + " " + qs
 	out := r.op(line)
 	r.count("locator/" + spec.kind + map[bool]string{true: "@mod", false: ""}[m != nil])
+	if spec.kind == "selector" {
+		for _, k := range c08PrefixKeys {
+			if strings.HasPrefix(spec.text, k) {
+				r.count("locator/selector-with-location-prefix")
+			}
+		}
+	}
 	r.eval("l|"+s+"|"+qs, len(seq.Features()) > 0 || spec.kind != "selector")
 	if out == "PANIC" || out == "ERR" {
 		r.fail(Failure{Oracle: "an assembled locator is accepted and does not panic", Op: line, Got: out})
@@ -721,11 +721,6 @@ func c08Locator(r *Run, spec c08Spec, m gts.Modifier, seq gts.Sequence) {
 	if w := encRegs(want); out != w {
 		f := Failure{Oracle: "X@M denotes the regions of X each resized by M (bare modifier: whole sequence; location: itself; selector: matching features in table order)",
 			Op: line, Got: out, Want: w}
-		// known finding K8A: same shape and same misbehaviour (the numeric prefix read as a location)
-		if spec.kind == "selector" && isK8A(spec.text) && out == encRegs(locatorKind(s, true).apply(copySeq(seq))) {
-			f.Finding = "K8A"
-			r.count("locator/K8A")
-		}
 		r.fail(f)
 	}
 }
